@@ -110,6 +110,14 @@ func (cr *ConRun) stat(k string, n int) {
 	cr.Stats[k] += n
 }
 
+// faultStats: what the scheduler and the virtual clock injected in this run (evidence: fault_kinds_fired)
+func (cr *ConRun) faultStats() {
+	cr.stat("fault:preemption", int(cr.Res.Preemptions))
+	cr.stat("fault:clock_jump", int(cr.Res.ClockJumps))
+	cr.stat("fault:timer_fired_inside_workload", int(cr.Res.TimerFires))
+	cr.stat("fault:idle_clock_advance", int(cr.Res.IdleJumps))
+}
+
 func (cr *ConRun) viol(prop, class, detail string) {
 	cr.stat("viol:"+prop+":"+class, 1)
 	cr.Viol = append(cr.Viol, Violation{Property: prop, Class: class, Detail: detail})
@@ -243,6 +251,7 @@ func (cr *ConRun) runC12() {
 	cr.stat("steps", int(cr.Res.Steps))
 	cr.stat("decisions", int(cr.Res.Decisions))
 	cr.stat("preemptions", int(cr.Res.Preemptions))
+	cr.faultStats()
 	cr.stat("tasks", cr.Res.Tasks)
 	cr.stat("outcome:"+cr.Res.Outcome, 1)
 	cr.check()
@@ -846,6 +855,7 @@ func (cr *ConRun) runTxn() {
 	cr.stat("steps", int(cr.Res.Steps))
 	cr.stat("decisions", int(cr.Res.Decisions))
 	cr.stat("preemptions", int(cr.Res.Preemptions))
+	cr.faultStats()
 	cr.stat("outcome:"+cr.Res.Outcome, 1)
 	hj, _ := json.Marshal(hist)
 	cr.TxnHist = hj
